@@ -92,7 +92,7 @@ def roundtrip(x, p):
             for k in range(n):
                 x.assume(And(s[k] != 34, s[k] != 92, s[k] != 10,
                              s[k] != 13))
-            code = [b'd="' + b'\x80\x8e' * 11000 + s + b'"' + nl, b'y=2' + nl]
+            code = [b'd="' + b'\x80' * 22000 + s + b'"' + nl, b'y=2' + nl]
         elif kind == 'dunder':
             # a code line that begins like a section header but is not one
             t = x.bytes('tail', 1)
